@@ -26,11 +26,16 @@ def ledger_predicate(case, impl, j):
     pf = {}        # pid -> exact cash
     led = {}       # pid -> list of (kind, amount, balance)
     prev = None
+    quoted = {}
+    for q in case['quotes']:
+        quoted.setdefault(q[0], set()).add(q[1])
     for n, st in enumerate(impl['steps']):
         op = case['ops'][n]
         ok = st['res'][0] == 'ok'
         w = 'step %d %s' % (n, op)
         money = False
+        if op[0] == 'update' and quoted.get(op[1], set()) != set(case['assets']):
+            return      # an asset without a quote at this instant (NaN mark / unpriceable order): out of model
         if ok and op[0] == 'subacct':
             master += Fraction(op[1]); money = True
         elif ok and op[0] == 'wdacct':
@@ -74,6 +79,8 @@ def ledger_predicate(case, impl, j):
                     s = Fraction(0)
                     for pub in st['pub']:
                         want = pub[2] if op[0] == 'getaccttmv' else pub[3]
+                        if fr(want) is None:
+                            return
                         if not close(Fraction(want), d[pub[0]], tol):
                             out.append('%s: entry %s = %s but per-portfolio figure is %s' % (w, pub[0], d[pub[0]], want))
                         s += Fraction(want)
